@@ -299,6 +299,48 @@ def run_evobj(root, hexs):
         return "CRASH %s" % crash_name(e)
 
 
+def run_objsh(spec):
+    """C11 with a history: decode every item (strict), keep the event list and the returned object; afterwards rebuild
+    every object from its kept events: equal to the kept object, and turning back into events of the kept types"""
+    from tpmstream.common.object import events_to_obj, obj_to_events
+
+    class G:
+        def __init__(self, g):
+            self.g = g
+            self.value = None
+
+        def __iter__(self):
+            self.value = yield from self.g
+
+    kept = []
+    for k, item in enumerate(spec.split(",")):
+        root, hexs = item.split("~")
+        t, kw = parse_root(root)
+        data = b"" if hexs == "-" else bytes.fromhex(hexs)
+        try:
+            g = G(Binary.marshal(tpm_type=t, buffer=data, abort_on_error=True, **kw))
+            evs = list(g)
+        except (InputStreamBytesDepletedError, InputStreamSuperfluousBytesError, ConstraintViolatedError):
+            continue
+        kept.append((k, kw, evs, g.value))
+    for k, kw, evs, obj in kept:
+        try:
+            rebuilt = events_to_obj(evs, command_code=kw.get("command_code"))
+        except Exception as e:  # noqa
+            return "BAD events_to_obj-raises %d %s" % (k, type(e).__name__)
+        if rebuilt != obj:
+            return "BAD rebuilt!=returned %d" % k
+        for nm, o in (("returned", obj), ("rebuilt", rebuilt)):
+            try:
+                back = list(obj_to_events(o))
+            except Exception as e:  # noqa
+                return "BAD obj_to_events-raises %d %s %s" % (k, nm, type(e).__name__)
+            if back != evs:
+                j = next((i for i, (a, b) in enumerate(zip(back, evs)) if a != b), min(len(back), len(evs)))
+                return "BAD obj_to_events(%s)!=events %d at event %d" % (nm, k, j)
+    return "OK %d" % len(kept)
+
+
 def run_sevobj(hexs):
     """events_to_objs applied to the events of an accepted strict stream decode: one object per message"""
     from tpmstream.common.object import events_to_objs
@@ -631,6 +673,29 @@ def _hist_mode(items, start, finish, strict, _unused):
     return r
 
 
+def _print_all(run):
+    from tpmstream.io.events import Events
+    from tpmstream.io.pretty import Pretty
+
+    evs = [e for e in run[0] if isinstance(e, MarshalEvent)]
+    for e in evs:
+        try:
+            str(e), repr(e)
+        except Exception:  # noqa
+            pass
+    for o in run[1:]:
+        try:
+            repr(o), str(o)
+        except Exception:  # noqa
+            pass
+    for P in (Pretty, Events):
+        try:
+            for _ in P.unmarshal(iter(evs)):
+                pass
+        except Exception:  # noqa
+            pass
+
+
 def _hist_once(items, start, finish):
     runs = []
     for rnd in range(2):
@@ -647,6 +712,11 @@ def _hist_once(items, start, finish):
                 evs.append("EXC " + type(e).__name__)
             fin = finish([x for x in evs if not (isinstance(x, str) and x.startswith("W "))], g, root)
             runs.append((evs,) + fin[1:])
+        # between the rounds: print what was decoded (str / repr / the two printers). Printing is not decoding; it must
+        # leave no trace in later decodes.
+        if rnd == 0:
+            for run in runs:
+                _print_all(run)
     n = len(items)
     # interleaved: round robin over next()
     gens = [start(root, hexs) for root, hexs in items]
@@ -855,6 +925,33 @@ def make_pcapng(payloads, encap="ip"):
     return f.getvalue()
 
 
+def make_pcapng_mixed(payloads, pattern="eii"):
+    """a pcapng section with two interfaces (0: Ethernet, 1: raw IP); packet i is framed as pattern[i % len(pattern)]
+    ('e' Ethernet frame on interface 0, 'i' raw IP packet on interface 1)"""
+    import struct
+
+    import dpkt
+
+    def block(block_type, body):
+        body += b"\x00" * (-len(body) % 4)
+        total = 12 + len(body)
+        return struct.pack("<II", block_type, total) + body + struct.pack("<I", total)
+
+    out = block(0x0A0D0D0A, struct.pack("<IHHq", 0x1A2B3C4D, 1, 0, -1))
+    out += block(1, struct.pack("<HHI", 1, 0, 0xFFFF))
+    out += block(1, struct.pack("<HHI", 101, 0, 0xFFFF))
+    for i, p in enumerate(payloads):
+        tcp = dpkt.tcp.TCP(sport=2321, dport=40000 + i % 100, data=bytes(p))
+        ip = dpkt.ip.IP(src=b"\x7f\x00\x00\x01", dst=b"\x7f\x00\x00\x01", p=dpkt.ip.IP_PROTO_TCP, data=tcp)
+        ip.len = 20 + len(bytes(tcp))
+        if pattern[i % len(pattern)] == "e":
+            interface, pkt = 0, bytes(dpkt.ethernet.Ethernet(dst=b"\0" * 6, src=b"\0" * 6, type=dpkt.ethernet.ETH_TYPE_IP, data=ip))
+        else:
+            interface, pkt = 1, bytes(ip)
+        out += block(6, struct.pack("<IIIII", interface, 0, i, len(pkt), len(pkt)) + pkt)
+    return out
+
+
 def run_fe(kind, texthex):
     text = b"" if (texthex == "-" or kind == "pcap") else bytes.fromhex(texthex)
     if kind in ("hex", "swtpm"):
@@ -891,8 +988,8 @@ def run_fe(kind, texthex):
 
         payloads = [] if texthex == "-" else [bytes.fromhex(x) if x != "-" else b"" for x in texthex.split(",")]
         res = None
-        for encap in ("ip", "eth"):
-            data = make_pcapng(payloads, encap)
+        for encap in ("ip", "eth", "mix:eii", "mix:ie", "mix:eeiie"):
+            data = make_pcapng(payloads, encap) if not encap.startswith("mix:") else make_pcapng_mixed(payloads, encap[4:])
             r = hx(bytes(bytes_from_pcap_file(io.BytesIO(data))))
             if res is None:
                 res = r
@@ -918,6 +1015,10 @@ def run_fevents(kind, abort, root, texthex):
         payloads = [] if texthex == "-" else [bytes.fromhex(x) if x != "-" else b"" for x in texthex.split(",")]
         text = make_pcapng(payloads, "eth")
         F = Auto
+    elif kind in ("pcapmix", "autopcapmix"):
+        payloads = [] if texthex == "-" else [bytes.fromhex(x) if x != "-" else b"" for x in texthex.split(",")]
+        text = make_pcapng_mixed(payloads, "eii" if kind == "pcapmix" else "ieei")
+        F = Pcapng if kind == "pcapmix" else Auto
     else:
         text = b"" if texthex == "-" else bytes.fromhex(texthex)
         F = {"hex": Hex, "swtpm": SWTPMLog, "auto": Auto, "binary": Binary}[kind]
@@ -1080,7 +1181,7 @@ def run_cliexp(fmt_in, fmt_out, typ, cmd, path):
 
     fi = {"auto": Auto, "binary": Binary, "hex": Hex, "pcapng": Pcapng, "swtpm-log": SWTPMLog}[fmt_in]
     fo = {"binary": Binary, "events": Events, "pretty": Pretty}[fmt_out]
-    data = open(path, "rb").read()
+    data = b"".join(open(x, "rb").read() for x in path.split("+"))
     kw = {}
     if typ == "-":
         t = CommandResponseStream
@@ -1151,6 +1252,8 @@ def handle(line):
         return run_objs(parts[1], parts[2])
     if parts[0] == "hist":
         return run_hist(parts[1])
+    if parts[0] == "objsh":
+        return run_objsh(parts[1])
     if parts[0] == "rc":
         return run_rc(parts[2])
     if parts[0] == "attr":
